@@ -87,6 +87,10 @@ def collect(prop, res, directions):
             if d and not d["solved"] and d["V_must"] > 0 and not r.get("n_lost"):
                 add("solve-false", p, f"solve() reports no solution although {d['V_must']} valid schedules exist", ["solve-false"])
             lost_keys = {tlc.key_of(v) for v in r["lost"]}
+            o = r.get("optimum")
+            if o and o["got"] != o["best"]:
+                add("wrong-optimum", p, f"solve() ends on objective value {o['got']} where the best valid schedule reaches {o['best']}",
+                    ["optimum"], **o)
             for m in r["replay_mismatch"]:
                 if tlc.key_of(m["v"]) in lost_keys:
                     continue  # already reported as a lost schedule
@@ -195,3 +199,7 @@ RUNNERS.update(solver_props.RUNNERS)
 
 import report_props  # noqa: E402
 RUNNERS.update(report_props.RUNNERS)
+
+import builder_props  # noqa: E402
+RUNNERS["C18"] = builder_props.run_C18
+RUNNERS["C14"] = builder_props.run_C14
